@@ -22,6 +22,7 @@ META = {
                     "Arm-level clauses on arms as configured by the setters (link frames are not carried by move, as the property says)",
                     "energy conservation checked on a small number of integrated trajectories per run (cost)"],
 }
+REQUIRED_REACH = ['kinematics/arm_model.py:Arm.inverseDynamics', 'kinematics/arm_model.py:Arm.inverseDynamicsEMR', 'kinematics/arm_model.py:Arm.massMatrix', 'kinematics/arm_model.py:Arm.forwardDynamics', 'kinematics/arm_model.py:Arm.forwardDynamicsE', 'kinematics/arm_model.py:Arm.coriolisGravity']
 REQUIRED_CLAUSES = ["mass.spd", "mass.sum_JGJ", "fd_inverts_id", "decomposition", "tip_term", "coriolis_power", "gravity_gradient",
                     "arm.inverseDynamics", "arm.inverseDynamicsC", "arm.inverseDynamicsEMR", "arm.massMatrix", "arm.coriolisGravity",
                     "arm.forwardDynamics", "arm.forwardDynamicsE", "energy_conservation", "arm.integrate"]
